@@ -3,7 +3,7 @@ from __future__ import annotations
 
 from .common import *   # noqa: F401,F403
 
-LEAF = ['Leaf_query', 'Leaf_bpm', 'Leaf_timed']      # translated leaf functions this property's model relies on (Tie/<name>.v)
+LEAF = ['Leaf_query', 'Leaf_bpm', 'Leaf_timed']      # translated functions this property's model relies on (Tie/<name>.v)
 RULE = ("(a) tempo maps of 1-8 segments x ticks {0, every boundary, boundary +-1, far past the end, random, -1} x EVERY hint 0..len+1, "
         "observed through bpm_events.timestamp_at_tick(tick, start_iteration_index=h); non-trivial when the map has >= 2 segments; "
         "(b) whole charts whose sync / events / instrument sections carry the six hinted event kinds in sorted, one-swap, block-moved and random "
